@@ -12,7 +12,7 @@ pub static DEF: PropDef = PropDef {
     id: "C16",
     title: "Enumerated protocol fields accept exactly their assigned code points",
     rule: "Every x in 0..=65535 for each of six enumerated fields - message type (in a Message Type AVP), general error type (in a Result Code AVP), proxy authentication type, the Stop-CCN and CDN views of a result \
-code, and the attribute type (in front of a payload that is valid for every assigned kind, with the M bit set and clear and with reserved AVP header bits set, and again with the H bit) - plus every named value of every enumeration. Oracle: accepted iff x is an RFC 2661 code point \
+code, and the attribute type (in front of a payload that is valid for every assigned kind, with the M bit set and clear and with reserved AVP header bits set, and again with the H bit); each code is also placed between two valid AVPs of a control message (accepted iff assigned), and each attribute type is also dispatched through reveal (a hidden AVP built with the reference cipher, with a generous and with an empty original value) - plus every named value of every enumeration. Oracle: accepted iff x is an RFC 2661 code point \
 of the field; the decoded named value is the one the RFC gives that number (matched by name through the harness's own tables); an accepted x re-encodes to x; each named value encodes to its RFC number; \
 result codes keep the raw value for all x and as_stop_ccn / as_cdn succeed exactly on 0-7 / 0-11; the decoded AVP variant is the kind of that attribute number. Non-trivial = every (field, x); distinct by (field, x).",
     assumptions: &["the harness's RFC 2661 number/name tables (glue.rs, this file) are the trusted base"],
@@ -231,6 +231,63 @@ fn check_code(x: u16, cx: &mut Cx) -> Res {
         let rv = one(&bv, "message type", x)?;
         if rv.is_ok() != MSG_TYPES.contains(&x) {
             return fail(format!("message-type code {} with M clear and reserved header bits set: acceptance differs from the assigned set", x), json!({"avp": hex(&bv)}));
+        }
+    }
+    // message level: the coded AVP sits between a Message Type and a valid AVP; the message is accepted iff the code is assigned
+    {
+        let fields: [(&str, Vec<u8>, bool); 4] = [
+            ("message type", avp_bytes(1, 0, &x.to_be_bytes()), MSG_TYPES.contains(&x)),
+            ("error type", avp_bytes(1, 1, &[0, 1, x.to_be_bytes()[0], x.to_be_bytes()[1]]), x <= 8),
+            ("proxy authen type", avp_bytes(1, 29, &x.to_be_bytes()), x <= 5),
+            ("attribute type", avp_bytes(1, x, &up), assigned),
+        ];
+        for (what, rec, ok) in fields.iter() {
+            cx.eval();
+            let mut m = vec![0x13, 0x20, 0, 0, 0, 1, 0, 2, 0, 3, 0, 4, 0x01, 0x08, 0, 0, 0, 0, 0, 2];
+            m.extend_from_slice(rec);
+            m.extend_from_slice(&[0x01, 0x08, 0, 0, 0, 9, 0, 77]); // Assigned Tunnel ID
+            let l = m.len() as u16;
+            m[2..4].copy_from_slice(&l.to_be_bytes());
+            match crate_decode(&m, STRICT) {
+                Caught::Ok(r) => {
+                    if r.is_ok() != *ok {
+                        return fail(
+                            format!("{} code {} between two valid AVPs of a control message: message {} although the code is {}", what, x, if r.is_ok() { "accepted" } else { "rejected" }, if *ok { "assigned" } else { "unassigned" }),
+                            json!({"input": hex(&m)}),
+                        );
+                    }
+                    if let Ok((SMsg::Control { avps, .. }, _)) = &r {
+                        if avps.len() != 3 {
+                            return fail(format!("{} code {}: accepted control message carries {} AVPs instead of 3", what, x, avps.len()), json!({"input": hex(&m)}));
+                        }
+                    }
+                }
+                _ => return fail(format!("{} code {}: message decode panicked", what, x), json!({"input": hex(&m)})),
+            }
+        }
+    }
+    // the reveal path dispatches on the attribute type too: a hidden AVP whose plaintext is the generous payload, and one
+    // whose plaintext is empty (original length 6), encrypted with the reference key schedule
+    {
+        cx.evals_n(2);
+        let secret = b"c16";
+        let rv = [1u8, 2, 3, 4];
+        let v_full = hide(x, &up, secret, &rv, &[], &[0; 16]);
+        let v_empty = hide(x, &[], secret, &rv, &[], &[0; 16]);
+        for (v, payload) in [(&v_full, &up[..]), (&v_empty, &[][..])] {
+            let h = AVP::Hidden(rl2tp::avp::types::Hidden { attribute_type: x, value: v.clone() });
+            let spec = decode_payload(x, payload).ok().map(|body| SAvp { attr: x, hidden: false, body });
+            match guard(|| h.reveal(secret, &rv.into()).map(|a| from_crate(&a))) {
+                Caught::Ok(r) => {
+                    if r.as_ref().ok() != spec.as_ref() {
+                        return fail(
+                            format!("reveal of a hidden AVP of attribute type {} with a {}-octet original value gives {:?}, the reference gives {:?}", x, payload.len(), r, spec),
+                            json!({"attribute_type": x, "hidden_value": hex(v)}),
+                        );
+                    }
+                }
+                _ => return fail(format!("reveal of a hidden AVP of attribute type {} panicked", x), json!({"attribute_type": x, "hidden_value": hex(v)})),
+            }
         }
     }
     let b = avp_bytes(1, x, &up);
